@@ -299,7 +299,7 @@ Definition h_tot (args : list bytes) : bytes :=
                    ++ (match digest O t v with DOk _ => str "o" | DPanic => str "P" end) ++ str "oo"
                | _ => [x2d]
                end in
-    let al := match d with TOk _ _ a => a | TErr a => a | TPanic => 0 end in
+    let al := match d with TOk _ _ a => a | TErr a => a | TPanic => 0 end + scratch_reserve tr t in
     words [ str "D:" ++ ds; str "F:" ++ fs; str "OPS:" ++ ops; str "A:" ++ to_dec al;
             str "BOUND:" ++ to_dec (alloc_bound t (nlen bs));
             str "K:" ++ match d with TOk v _ _ => boolo (has_bad_pos O t v) | _ => [x2d] end ]).
